@@ -245,17 +245,12 @@ def mftFresh {X M B R : Type} (K : MftKern X M B R) (d : Dir) (p : CPrec) (x : X
 
 /-- the cache describes what it says: matrices recorded at `q` *are* the matrices for `q` — as a check
 the driver runs after every call (`k1`/`k0`; the harness compares it with `M1.dtype == matrices_dtype` on
-the real object).  `Spec.Keyed` is its `Prop` form (`keyedB_iff`). -/
+the real object).  Its `Prop` form used as the invariant of the proofs is `Spec.Keyed` in `Lemmas/FourierSwitch.lean`
+(`keyedB_iff`). -/
 def keyedB {X M B R : Type} [BEq M] (K : MftKern X M B R) (c : MftCache M B) : Bool :=
   match c.mats with
   | some (q, m) => m == K.mats q
   | none => true
-
-namespace Spec
-/-- specification form of `keyedB` (not run by the driver; used as the invariant of the proofs) -/
-def Keyed {X M B R : Type} (K : MftKern X M B R) (c : MftCache M B) : Prop :=
-  ∀ q m, c.mats = some (q, m) → m = K.mats q
-end Spec
 
 /-! ### provenance kernels (what the driver runs) -/
 
@@ -316,11 +311,5 @@ def nftRunFrom {X A R : Type} (K : NftKern X A R) (pre : Bool) : NftCache A → 
     let (r, c') := nftCall K pre c d p x
     let (rs, cf) := nftRunFrom K pre c' rest
     (r :: rs, cf)
-
-namespace Spec
-/-- specification-level invariant of the proofs (not run by the driver) -/
-def NftKeyed {X A R : Type} (K : NftKern X A R) (c : NftCache A) : Prop :=
-  ∀ d a, c.get d = some a → a = K.matrix d
-end Spec
 
 end HcipyVerif.FourierSwitch
